@@ -119,6 +119,11 @@ def generated_cases(rng, n, atom_range=(8, 40), nq=8):
 
 def small_cases(rng, n, shapes=("strong",), nq=8):
     out = []
+    # a fifth of the small cases are 'defaults and exceptions' bases and TLC-found distinguishing inputs (several ties per layer)
+    special = [c for c in (infer.gen_case_defaults(rng, nq) for _ in range(n // 5)) if c]
+    special += infer.distinguishing_cases(rng, "wAnyTie")[: n // 5] + infer.distinguishing_cases(rng, "lexAllPairs")[: n // 10]
+    for c in special:
+        out.append({"kind": "trees", "sig": c["sig"], "base": [(x["B"], x["A"]) for x in c["base"]], "qs": [(x["B"], x["A"]) for x in c["qs"]], "via": "api"})
     for _ in range(n):
         c = infer.gen_case(rng, rng.choice([3, 4, 5]), rng.choice([2, 3, 4, 5, 6]), nq, set(shapes))
         if c:
